@@ -174,6 +174,63 @@ def run(ctx):
         exp = model.expected(REPO, nb.cfg.dist, nb.cfg.abi, nb.cfg.ver, nb.cfg.full == "full")
         compare(ctx, nb.cfg, exp, os.path.join(nb.tap, "prepared"), "after " + oid + "+junk", agg)
         shutil.rmtree(nb.root, ignore_errors=True)
+    # manifests rewritten in an equivalent form (no final newline, CRLF, more comment and blank lines): same policy set
+    vt = ctx.rng.sample(good, min(len(good), 2 if ctx.tier == "quick" else 10))
+
+    def variant_build(b):
+        notes = []
+
+        def mut(src):
+            vr = __import__("random").Random("%s/%s" % (ctx.seed, b.cfg.id))
+            d = os.path.join(src, "dists")
+            files = [os.path.join(d, "overwrite")]
+            for sub, ext in (("ignore", ".ignore"), ("flags", ".flags")):
+                for nm in ("main", b.cfg.dist):
+                    files.append(os.path.join(d, sub, nm + ext))
+            for fp in files:
+                if not os.path.isfile(fp):
+                    continue
+                txt = open(fp).read()
+                how = vr.choice(["no-final-newline", "crlf", "comments-and-blanks", "blank-lines-at-end", "crlf-no-final-newline"])
+                lines = txt.split("\n")
+                if lines and lines[-1] == "":
+                    lines = lines[:-1]
+                if how == "comments-and-blanks":
+                    k = vr.randrange(len(lines) + 1)
+                    lines[k:k] = ["", "# a note", "#another", ""]
+                    out = "\n".join(lines) + "\n"
+                elif how == "no-final-newline":
+                    out = "\n".join(lines)
+                elif how == "crlf":
+                    out = "\r\n".join(lines) + "\r\n"
+                elif how == "crlf-no-final-newline":
+                    out = "\r\n".join(lines)
+                else:
+                    out = "\n".join(lines) + "\n\n\n"
+                open(fp, "w").write(out)
+                notes.append("%s:%s" % (os.path.relpath(fp, d), how))
+
+        nb = matrix.run_build(ctx, b.cfg, tag="manifest-variant", tap=True, src_mutator=mut)
+        return b, nb, notes
+
+    for b, nb, notes in pmap(variant_build, vt):
+        if nb.rc != 0:
+            ctx.violation("C04/build-failed-on-equivalent-manifests/" + nb.cfg.id, "prebuild failed with manifests rewritten as %s: %s" % (notes, nb.log[-300:]),
+                          {"cfg": nb.cfg.id, "variants": notes})
+            continue
+        ra = model.listing(os.path.join(b.tap, "prepared", "apparmor.d"))
+        rb2 = model.listing(os.path.join(nb.tap, "prepared", "apparmor.d"))
+        for rel in sorted(set(ra) | set(rb2)):
+            ctx.case(digest(b.cfg.id, "manifest-variant", rel))
+            same = ra.get(rel) == rb2.get(rel)
+            if same and ra.get(rel) == "F":
+                same = read_bytes(os.path.join(b.tap, "prepared", "apparmor.d", rel)) == read_bytes(os.path.join(nb.tap, "prepared", "apparmor.d", rel))
+            if not same:
+                kind = "loss" if rel not in rb2 else ("leak" if rel not in ra else "content")
+                agg.setdefault("C04/manifest-format/%s/%s" % (kind, rel), []).append(
+                    ("%s[%s]" % (b.cfg.id, ",".join(notes)), "%s: %s differs (%s) when the manifests are written in an equivalent form: %s" % (b.cfg.id, rel, kind, notes)))
+        shutil.rmtree(nb.root, ignore_errors=True)
+    ctx.extra["manifest_variant_builds"] = len(vt)
     ctx.extra["manifest_named_but_unchanged"] = sorted(ctx.extra.get("manifest_named_but_unchanged", ()))
     ctx.require(ctx.evaluations >= 1000 * len(cfgs), "only %d path comparisons for %d configurations" % (ctx.evaluations, len(cfgs)))
     ctx.extra["configurations"] = len(cfgs)
